@@ -94,7 +94,7 @@ PrimaryServe(r) ==
      THEN \* no connection / "replica state was NOT expected": the round fails
           /\ pc' = [pc EXCEPT ![r] = "idle"] /\ UNCHANGED <<vars, allow, rs, lastTx, running, ans, queue, lost, nextAlh, nfail, nrestart, bad>>
      ELSE
-     /\ ArriveE(p, r, has, st)
+     /\ ArriveE(p, r, has, st, FALSE)
      /\ IF has /\ ~CommitPartOk(p, st)
         THEN /\ ans' = [ans EXCEPT ![r] = [NoAns EXCEPT !.kind = "diverged-commit"]]
              /\ BadIf({<<"replicator-sends-state-it-did-not-read", ArriveG(p, r, has, st)>>, <<"primary-rejects-replica-whose-state-is-a-prefix", AnswerDivergedG(p, r, st)>>})
@@ -228,10 +228,16 @@ MCTypeOK == \A n \in Nodes : com[n] <= dur[n] /\ dur[n] <= Len(pre[n]) /\ Cardin
 \* state form of the property: whatever a replica has committed under an allowance in force is committed, identically, on the node that granted it
 CommittedOnGrantor == \A r \in Nodes : (role[r] = "replica" /\ syncOn[r] /\ allowBy[r] # None) =>
                           (allow[r] <= com[allowBy[r]] \/ allow[r] <= com[r])
+\* link to the store-level module: as long as no failover happened, the first node and the others are Replication.tla's primary
+\* and replicas and its invariants hold
+R == INSTANCE Replication WITH Replicas <- Others, ppre <- pre[First], pcommitted <- com[First], phist <- SubSeq(pre[First], 1, com[First]),
+                               rpre <- [r \in Others |-> pre[r]], rdur <- [r \in Others |-> dur[r]], rcommitted <- [r \in Others |-> com[r]],
+                               syncAcks <- need[First]
+StoreLevelInv == nfail = 0 => R!ReplInv
 Emit == (EmitDepth > 0 /\ Len(sched) = EmitDepth) => PrintT(<<"JSON:", ToJson([steps |-> sched])>>)
 \* dead values are hidden: the state a replicator read is used only until the round is over, the cursor of a stopped replicator
 \* is re-initialised before its next use, the fetched-from set matters only for asynchronous replication
-View == <<pre, dur, com, role, follows, syncOn, need, everDur, created, acked, allowBy,
+View == <<pre, dur, com, role, follows, syncOn, need, everDur, created, acked, pend, allowBy,
           [n \in Nodes |-> IF pc[n] = "idle" THEN NoSt ELSE rep[n]], IF SyncRepl THEN 0 ELSE srcs,
           allow, rs, [n \in Nodes |-> IF running[n] THEN lastTx[n] ELSE 0], running, pc, ans, queue, lost, nextAlh, nfail, nrestart, bad>>
 \* the replicas are interchangeable
